@@ -110,12 +110,18 @@ type tokensFaultStore struct {
 	nodeenrollment.Storage
 	failTokRemove atomic.Bool
 	fired         atomic.Int32
+	kindSeq       atomic.Int32
 }
 
 func (f *tokensFaultStore) Remove(ctx context.Context, m nodeenrollment.MessageWithId) error {
 	if f.failTokRemove.Load() {
 		if _, ok := m.(*types.ServerLedActivationToken); ok {
+			// alternate between a generic error and the library's not-found error (what a storage that
+			// reports "nothing removed" would return)
 			f.fired.Add(1)
+			if f.kindSeq.Add(1)%2 == 0 {
+				return fmt.Errorf("injected: activation token already gone: %w", nodeenrollment.ErrNotFound)
+			}
 			return errors.New("injected: removal of the activation token failed")
 		}
 	}
